@@ -26,6 +26,9 @@ PROPS["C04"]["level_text"] = PROPS["C04"]["level_text"].replace(
     "zero fill, n payload bytes) at every such position are read as metadata with no content, ending byte aligned. body_blocks + flush_prefix_read_by_stream_reader_md: for every history that ends with a completed "
     "flush in state PROCESSING, if the header is read as (lgwin, large) and the PAYLOAD-ENCODER events (enc, fast) decode in the reader's sense (PayloadDecode(DecRd): nothing is asked of sync blocks, metadata headers "
     "or bodies), the streaming reader fed exactly the delivered bytes answers needMore(input.take covered), and covered = input_pos_ without one-shot blocks. "
+    "Header: stream_header_is_declared_window — the window bits the STREAM model stages for a fresh encoder with parameters p are read by the RFC 9.1 reader as clampWindow(p) in the requested form "
+    "(stream model's EncodeWindowBits = header model's on 10..30 x both forms, then C15 wbits_roundtrip), and run_factsX records that every window event of a log carries exactly those bits; "
+    "flush_prefix_read_by_stream_reader_closed has NO header hypothesis left: the reader's window is 2^clampWindow(p) - 16 for the parameters p in force at the first compress_stream call. "
     "On the real code the same statement is checked by the decoders at every completed flush and metadata block.")
 
 PROPS["C04"]["level_note"] = PROPS["C04"]["level_note"].replace(
@@ -33,9 +36,10 @@ PROPS["C04"]["level_note"] = PROPS["C04"]["level_note"].replace(
     "What is left of the decode half is ONE hypothesis, PiecesOK.pieces of C01 (every emitted piece decodes to the input range it covers): for payload pieces that is the payload encoder "
     "(C01MetaBlock / C01Chain / C01Fragment prove it per writer under their own hypotheses; their instantiation to DecRd is not done here); for the pieces the state machine writes itself (sync blocks, metadata headers and bodies) it is PROVED "
     "against the streaming reader, with alignment and grouping derived from the run (run_factsX): flush_prefix_read_by_stream_reader_md assumes PayloadDecode only (the per-event PiecesOK form of "
-    "flush_prefix_read_by_stream_reader stays for histories without metadata). The skeleton bits an `enc` event writes itself (magic-number metadata block, stored catable prelude) are part of that event's bits and so of its payload hypothesis. The header hypothesis of "
-    "flush_prefix_read_by_stream_reader (the window event's bits are read by the RFC 9.1 reader as (lgwin, large)) is C15 declared_window for the header model; the identification of the stream "
-    "model's header bits with the header model's is by correspondence (both tied to the real encoder), not a Lean theorem. The streaming reader reports `stuck` both for malformed input and for "
+    "flush_prefix_read_by_stream_reader stays for histories without metadata). The skeleton bits an `enc` event writes itself (magic-number metadata block, stored catable prelude) are part of that event's bits and so of its payload hypothesis. The header hypothesis of flush_prefix_read_by_stream_reader(_md) is discharged in "
+    "flush_prefix_read_by_stream_reader_closed (stream_header_is_declared_window: a Lean theorem about the stream model, no correspondence step). Payload pieces: blocks_one turns the conclusion of the writer round-trip "
+    "theorems of C01Chain / C01MetaBlock (one non-last meta-block read from a given reader state) into Blocks; the instantiation of PayloadDecode for a concrete encode_data oracle (reader state = decoder state of the "
+    "previous pieces, distance ring = dist_cache) is not done here. The streaming reader reports `stuck` both for malformed input and for "
     "a cut inside a meta-block. One-shot (quality 0/1 fast path) blocks: flush_call_flushed excludes fastMode, the reader theorems assume no `fast` event.")
 PROPS["C04"]["technique"] = PROPS["C04"]["technique"] + " + whole-history composition with C01's framing theorems and an explicit streaming RFC reader"
 PROPS["C04"]["assumptions"] = [a for a in PROPS["C04"]["assumptions"] if not a.startswith("'a streaming decoder fed only the flushed prefix")] + [
